@@ -502,7 +502,7 @@ class Check:
             if prop != self.pid:
                 # C10: an operation whose driver call was made to fail must return an error; a panic
                 # (reported by vamh under C13) in a fault-injection history is a C10 violation as well
-                faulty = under_faults or 'core2' in str(f.get('first_history', ''))
+                faulty = under_faults or 'core' in str(f.get('first_history', ''))    # every core profile arms driver faults
                 if not (self.pid == 'C10' and prop == 'C13' and sig.startswith('panic') and faulty):
                     continue
                 prop = 'C10'
